@@ -215,14 +215,17 @@ def specErrors (inp : BuilderInput) : List CfgError :=
   ++ (dangling inp inp.rootAppenders).map (fun r => ⟨.nonexistent, r⟩)
   ++ (withEarlier inp.loggers).flatMap (loggerItemErrors inp)
 
-/-- The offending items of a builder input, as the errors that name them (kind, name):
+/-- The offending items AS THE BUILDER REPORTS THEM (kind, name) — this is a reading decision, the
+statement's "offending item" made precise by what the error type can name:
 * an appender whose name was already used by an earlier appender;
 * a reference of the root to a name no appender (valid or duplicate) declares;
 * a logger whose name was already used by an earlier logger (whatever the validity of the name);
 * a logger that is the first with its name, the name being malformed;
 * a dangling reference of a *kept* logger (first with its name, name well-formed).
-References inside a logger that is itself dropped are not separately offending — the logger is the
-named item. -/
+A dangling reference inside a logger that is itself dropped is NOT in this list: the logger is the
+named item. What is guaranteed for such references — they sit in a logger that is reported under
+another kind — is `C13_every_defect_covered`; that nothing else can make an input ill-formed is
+`C13_wellFormed_iff_no_raw_defect`. -/
 inductive Offending (inp : BuilderInput) : CfgError → Prop
   | dupAppender (i : Nat) (a : AppenderDecl) :
       inp.appenders[i]? = some a → a.name ∈ (inp.appenders.take i).map (·.name) →
